@@ -249,6 +249,129 @@ def compare(ctx, tree, cases, render, expect, mainfn, tag, sigfn, first=0, prelu
     return res
 
 
+
+# ------------------------------------------------------------------ scope histories -> C
+SPRELUDE = r"""
+int printf(const char *, ...);
+static void bad(int i) { printf(" BAD%d", i); }
+"""
+VAL = dict(obj=10, enum=20, typedef=30, tag=40, mem=50)
+
+
+def probe_c(name, exp):
+    o = exp["ord"]
+    oe = "0" if o["k"] == "none" else ("(int)sizeof(%s)" % name if o["k"] == "typedef" else "(int)%s" % name)
+    te = "(int)sizeof(struct %s)" % name if exp["tag"] else "0"
+    return ' printf(" %%d %%d", %s, %s);' % (oe, te)
+
+
+def probe_exp(exp):
+    o = exp["ord"]
+    return [str(0 if o["k"] == "none" else VAL[o["k"]] + o["id"]), str(VAL["tag"] + exp["tag"] if exp["tag"] else 0)]
+
+
+def decl_c(name, k, d):
+    if k == "obj":
+        return "int %s = %d;" % (name, VAL[k] + d)
+    if k == "typedef":
+        return "typedef char %s[%d];" % (name, VAL[k] + d)
+    if k == "enum":
+        return "enum { %s = %d };" % (name, VAL[k] + d)
+    if k == "tag":
+        return "struct %s { char m[%d]; };" % (name, VAL[k] + d)
+    raise Infra("decl kind " + k)
+
+
+def render_scope(idx, c):
+    x = "x%d" % idx
+    out, infn, arg, nfor = [], False, None, 0
+    for ev in c["h"]:
+        e, k, d = ev["e"], ev["k"], ev["id"]
+        if e == "open" and k == "fn":
+            infn = True
+            arg = VAL["obj"] + d if ev["p"] else None
+            out.append("static void f%d(%s) {" % (idx, "int " + x if ev["p"] else "void"))
+        elif e == "open" and k == "block":
+            out.append(" {")
+        elif e == "open" and k == "for":
+            nfor += 1
+            o = "once%d" % nfor
+            out.append(" for (int %s%s = 1; %s; %s = 0) {" % ("%s = %d, " % (x, VAL["obj"] + d) if ev["p"] else "", o, o, o))
+        elif e == "close":
+            out.append("}" if k == "fn" else " }")
+            if k == "fn":
+                infn = False
+        elif e == "decl" and k == "lab":
+            out.append(' goto %s; bad(1); %s: printf(" L");' % (x, x))
+        elif e == "decl" and k == "mem":
+            out.append(' struct { int %s; } m%d = { %d }; printf(" %%d", m%d.%s);' % (x, d, VAL["mem"] + d, d, x))
+        elif e == "decl":
+            out.append((" " if infn else "") + decl_c(x, k, d))
+        elif e == "g":
+            out.append('static void g%d(void) { goto %s; bad(2); %s: printf(" G"); }' % (idx, x, x))
+        if infn:
+            out.append(probe_c(x, ev["exp"]))
+    out.append("static void r%d(void) { f%d(%s); g%d(); }" % (idx, idx, arg if arg is not None else "", idx))
+    return "\n".join(out) + "\n"
+
+
+def expect_scope(idx, c):
+    out, infn = ["C", str(idx)], False
+    for ev in c["h"]:
+        e, k = ev["e"], ev["k"]
+        if e == "open" and k == "fn":
+            infn = True
+        if e == "close" and k == "fn":
+            infn = False
+        if e == "decl" and k == "lab":
+            out.append("L")
+        if e == "decl" and k == "mem":
+            out.append(str(VAL["mem"] + ev["id"]))
+        if e == "g":
+            out.append("G")
+        if infn:
+            out += probe_exp(ev["exp"])
+    return " ".join(out)
+
+
+def main_scope(batch):
+    return "int main(void) {\n" + "".join(' printf("C %d"); r%d(); printf("\\n");\n' % (i, i) for i, _ in batch) + " return 0; }\n"
+
+
+def scope_sig(c, exp, got):
+    ks = sorted(set(ev["k"] for ev in c["h"] if ev["e"] == "decl" or ev["p"]))
+    return "scope:" + "+".join(ks)
+
+
+def run_scope(ctx, tree):
+    q = ctx.quick
+    out = os.path.join(ctx.scratch, "scope.ndjson")
+    cfg = ctx.cfg("flow", "Scope_mc.cfg", MaxDecl=3, MaxOpen=3 if q else 4, Emit=True)
+    g = ctx.tlc("flow", "Scope", cfg, env=dict(OUT=out), workers=4, heap="3g", timeout=3000)
+    if not g.ok:
+        p = ctx.replay_dir("tlc-Scope")
+        open(p + "/counterexample.txt", "w").write(g.trace_text())
+        json.dump(dict(kind="tlc", area="flow", module="Scope"), open(p + "/case.json", "w"))
+        ctx.report("tlc:Scope:%s" % g.violated, "chibicc's scope chain (Level I) binds differently from the innermost-visible rule (Level A)", p)
+    for v in ("for-noleave", "typedef-own-map"):
+        r = ctx.tlc("flow", "Scope", ctx.cfg("flow", "Scope_mc.cfg", MaxDecl=2, Variant='"%s"' % v), workers=2, heap="1g", count=False)
+        if r.ok:
+            raise Infra("sensitivity control failed: TLC accepts the wrong scope chain '%s'" % v)
+    hs = vt.read_ndjson(out)
+    if len(hs) < 500:
+        raise Infra("Scope generator wrote only %d histories" % len(hs))
+    # each history also gets the second function g
+    for h in hs:
+        h["h"].append(dict(e="g", k="lab", p=False, id=99, exp=None))
+    ctx.phase("Scope model")
+    sel = vt.subsample(hs, ctx.seed, 8 if q else 1)
+    mid = sel[len(sel) // 2]
+    ctx.sample(dict(kind="scope", c_source=render_scope(0, mid), expected=expect_scope(0, mid)))
+    compare(ctx, tree, sel, render_scope, expect_scope, main_scope, "scope", scope_sig, prelude=SPRELUDE,
+            nontrivial=lambda c: sum(1 for ev in c["h"] if ev["e"] == "decl" or ev["p"]) >= 2)
+    ctx.phase("scope replay")
+    return len(hs), len(sel)
+
 # ------------------------------------------------------------------------ profiles
 ALLK = ["Mark", "Seq", "If", "IfElse", "While", "Do", "For", "Switch", "Case", "CaseR", "Default", "Break", "Continue",
         "Goto", "GotoStar", "Label", "Expr", "T", "F", "Not", "And", "Or", "Cond", "Comma", "SE", "CntLt"]
